@@ -81,7 +81,10 @@ def one_case(ctx, kind, data, do_model=True):
 def random_string(rng):
     pieces = ALPHABET + [b"DDBEGIN\n", b"DDEND\n", b"\r\n", b"<a b=\"c\">", b"'\\u1234'", b"\"\\x4", b"\\u{1F}", b"<x y='", b" z=1 ",
                          b"\x80", b"\xe2\x80", b"\xf0\x90", b"\x0b", b"\x0c", b"\x1c", b"\xe2\x80\xa9", b"ab", b"\t"]
-    return b"".join(rng.choice(pieces) for _ in range(rng.randint(0, 14)))[:40]
+    body = b"".join(rng.choice(pieces) for _ in range(rng.randint(0, 14)))[:40]
+    # byte-order marks and other encoding signatures are ordinary bytes of the file
+    lead = rng.choice([b""] * 6 + [b"\xef\xbb\xbf", b"\xff\xfe", b"\xfe\xff", b"\xef\xbb", b"\x00"])
+    return lead + body
 
 
 def search(ctx):
@@ -96,6 +99,10 @@ def search(ctx):
 
 def run(ctx) -> int:
     proof = common.proof_stage(ctx.pid)
+    for lead in (b"\xef\xbb\xbf", b"\xff\xfe", b"\xfe\xff\x00"):
+        for body in (b"", b"a\n", b"// DDBEGIN\nab\n// DDEND\n", b"x = 'a';\n<a b=c>\n", b"\n" + lead + b"x\n"):
+            for kind in loaders.KINDS:
+                one_case(ctx, kind, lead + body)
     L = 4 if ctx.thorough else 3
     for data in loaders.all_strings(ALPHABET, L):
         for kind in loaders.KINDS:
